@@ -194,10 +194,10 @@ static Act exec(Ctx &c, const std::vector<std::string> &w, std::string &head, in
         new (c.slots[i].buf) SPV(std::move(c.slots[j].base()));
         c.slots[i].kind = 1;
     } else if (op == "mrg") {
-        if (!c.live(i) || !c.live(j) || i == j) return Act::bad;
-        c.slots[i].base() << std::move(c.slots[j].base());
+        if (!c.live(i) || !c.live(j)) return Act::bad;
+        c.slots[i].base() << std::move(c.slots[j].base());   // i == j: self-merge
     } else if (op == "asg") {
-        if (!c.live(i) || !c.live(j) || i == j) return Act::bad;
+        if (!c.live(i) || !c.live(j)) return Act::bad;                       // i == j: self move-assignment
         if (c.slots[i].kind == 2 && c.slots[j].kind == 1) return Act::bad;   // does not compile
         if (c.slots[i].kind == 2) c.slots[i].t() = std::move(c.slots[j].t());
         else c.slots[i].v() = std::move(c.slots[j].base());
